@@ -9,12 +9,13 @@ serializers (tied by `Tie/Binlog.lean` and the `binlog` correspondence harness),
 byte + metadata of the TableMap event).  Helper lemmas live in `Lemmas/Binlog*.lean`.
 
 PROVED here, for all values of the column's domain and any continuation `r` (framing):
-integers (all widths/signs), FLOAT/DOUBLE bit patterns, YEAR 1901‥2155, DATE, DATETIME(0‥6),
+integers (all widths/signs), FLOAT/DOUBLE bit patterns, YEAR (0000 and 1901‥2155), DATE, DATETIME(0‥6),
 TIMESTAMP(0‥6), BIT(1‥64), ENUM, SET(1‥64), VARCHAR/VARBINARY, CHAR/BINARY (incl. the 10-bit
 length metadata), all BLOB/TEXT sizes, the JSON/GEOMETRY length prefix; the NULL bitmap for any
 column count; unique parseability of a whole row image.
-REFUTED (witnesses below, each replayed on the real code by the harness): YEAR 0000, negative TIME
-with a fraction and seconds = 59, DECIMAL(p,p).
+REFUTED (witnesses below, each replayed on the real code by the harness): negative TIME with a
+fraction and seconds = 59, DECIMAL(p,p).  (YEAR 0000 and JSON key lengths ≥ 256 were refuted in the
+first round and are repaired in /repo: e60c6b5, 22b8e06; both are now part of the proved statement.)
 NOT PROVED (statement kept as `…_full`, compared differentially only): the TIME2 and NEWDECIMAL
 round trips outside the refuted points; binary JSON bodies.
 -/
@@ -33,9 +34,8 @@ def Proved : ColType → Prop
   | .decimal _ _ => False
   | _ => True
 
-/-- a stored value of the column's domain that is not the YEAR 0000 defect point -/
-def Good (t : ColType) (c : Cell) : Prop :=
-  inDomain t c = true ∧ ¬ (t = .year ∧ c = .int 0)
+/-- a stored value of the column's domain (YEAR 0000 included since /repo e60c6b5) -/
+@[reducible] def Good (t : ColType) (c : Cell) : Prop := inDomain t c = true
 
 /-- **decode ∘ encode = id, with framing**: for every proved column type and every value of its
 domain, a replica that reads the TableMap's (type byte, metadata) and then the cell bytes followed
@@ -43,7 +43,7 @@ by anything gets the stored value back and stops exactly at the end of the cell.
 theorem decode_encode_partial (t : ColType) (c : Cell) (hp : Proved t) (hg : Good t c)
     (b r : Bytes) (he : encode t c = .ok b) :
     decodeCell (signedOf t) (colMeta t).1 (colMeta t).2 (b ++ r) = some (c, r) := by
-  obtain ⟨hd, hy⟩ := hg
+  have hd : inDomain t c = true := hg
   have hne : (!inDomain t c) = false := by simp [hd]
   cases t with
   | time => exact absurd hp id
@@ -69,13 +69,9 @@ theorem decode_encode_partial (t : ColType) (c : Cell) (hp : Proved t) (hg : Goo
   | year =>
     cases c <;> simp [inDomain] at hd
     rename_i v
-    have hv : 1901 ≤ v ∧ v ≤ 2155 := by
-      rcases hd with h0 | h1
-      · exact absurd ⟨rfl, by rw [h0]⟩ hy
-      · exact h1
     simp [encode, inDomain, hd] at he
     subst he
-    exact decode_year v r hv
+    exact decode_year v r hd
   | date =>
     cases c <;> simp [inDomain] at hd
     rename_i y m d
@@ -151,10 +147,10 @@ theorem decode_encode_partial (t : ColType) (c : Cell) (hp : Proved t) (hg : Goo
     simpa [colMeta, signedOf, List.append_assoc] using this
 
 /-- non-vacuity: a negative MEDIUMINT, a DATETIME(3) and a 300-byte-max VARCHAR are `Good`. -/
-example : Good (.int .w3 true) (.int (-8388608)) ∧ Proved (.int .w3 true) := by
-  refine ⟨⟨by decide, by simp⟩, trivial⟩
-example : Good (.datetime 3) (.datetime 9999 12 31 23 59 59 999000) := ⟨by decide, by simp⟩
-example : Good (.varchar 300) (.bytes [1, 2, 3]) := ⟨by decide, by simp⟩
+example : Good (.int .w3 true) (.int (-8388608)) ∧ Proved (.int .w3 true) := ⟨by decide, trivial⟩
+example : Good (.datetime 3) (.datetime 9999 12 31 23 59 59 999000) := by decide
+example : Good (.varchar 300) (.bytes [1, 2, 3]) := by decide
+example : Good .year (.int 0) ∧ encode .year (.int 0) = .ok [0] := by decide
 
 /-- the property as stated, for every column type and every stored value -/
 def decode_encode_full : Prop :=
@@ -175,19 +171,14 @@ def time_decimal_roundtrip_full : Prop :=
       encDecimal p s neg u = .ok b →
       decodeCell false tNewDecimal (colMeta (.decimal p s)).2 (b ++ r) = some (.decimal neg u, r))
 
-/-- WITNESS 1 (YEAR 0000): dolt emits byte 0x94, which a replica reads as 2048. -/
-theorem year_zero_witness :
-    inDomain .year (.int 0) = true ∧ encode .year (.int 0) = .ok [0x94] ∧
-    decodeCell false tYear 0 [0x94] = some (.int 2048, []) := by decide +kernel
-
-/-- WITNESS 2 (TIME '-00:00:59.5'): the seconds carry makes a replica read '-00:00:63.5'. -/
+/-- WITNESS 1 (TIME '-00:00:59.5'): the seconds carry makes a replica read '-00:00:63.5'. -/
 theorem time_seconds_carry_witness :
     inDomain .time (.time (-59500000)) = true ∧
     encode .time (.time (-59500000)) = .ok [0x7f, 0xff, 0xc0, 0xf8, 0x5e, 0xe0] ∧
     decodeCell false tTime2 6 [0x7f, 0xff, 0xc0, 0xf8, 0x5e, 0xe0] = some (.time (-63500000), []) := by
   decide +kernel
 
-/-- WITNESS 3 (DECIMAL(2,2) value 0.12): the serializer fails, no event can be emitted. -/
+/-- WITNESS 2 (DECIMAL(2,2) value 0.12): the serializer fails, no event can be emitted. -/
 theorem decimal_p_eq_s_witness :
     inDomain (.decimal 2 2) (.decimal false 12) = true ∧
     encode (.decimal 2 2) (.decimal false 12) = .error .remaining := by
@@ -195,11 +186,22 @@ theorem decimal_p_eq_s_witness :
 
 theorem decode_encode_full_refuted : ¬ decode_encode_full := by
   intro h
-  have := h .year (.int 0) [0x94] [] year_zero_witness.1 year_zero_witness.2.1
-  rw [show ([0x94] : Bytes) ++ [] = [0x94] from rfl, show signedOf .year = false from rfl,
-    show (colMeta .year).1 = tYear from rfl, show (colMeta .year).2 = 0 from rfl, year_zero_witness.2.2] at this
+  have := h .time (.time (-59500000)) [0x7f, 0xff, 0xc0, 0xf8, 0x5e, 0xe0] []
+    time_seconds_carry_witness.1 time_seconds_carry_witness.2.1
+  rw [show ([0x7f, 0xff, 0xc0, 0xf8, 0x5e, 0xe0] : Bytes) ++ [] = [0x7f, 0xff, 0xc0, 0xf8, 0x5e, 0xe0] from rfl,
+    show signedOf .time = false from rfl, show (colMeta .time).1 = tTime2 from rfl,
+    show (colMeta .time).2 = 6 from rfl, time_seconds_carry_witness.2.2] at this
   revert this
   decide
+
+/-- **JSON object key lengths** (the point repaired by /repo 22b8e06): every key entry — offset in
+the small or large format and a key length up to 65535 bytes — is read back by a replica. -/
+theorem json_key_entry_roundtrip (large : Bool) (off len : Nat) (r : Bytes)
+    (hoff : off < (if large then 2 ^ 32 else 2 ^ 16)) (hlen : len < 65536) :
+    readKeyEntry large (jsonKeyEntry off len large ++ r) = some ((off, len), r) :=
+  readKeyEntry_jsonKeyEntry large off len r hoff hlen
+
+example : jsonKeyEntry 11 300 false = [11, 0, 0x2c, 0x01] := by decide
 
 theorem serializable_full_refuted : ¬ serializable_full := by
   intro h
